@@ -134,7 +134,13 @@ def run(scn, ch):
     def on_quiescent(world, res, gen, win):
         w = world.watcher('a')
         if w is None or w.status() != 'active' or not w.respawn:
-            res.ev('C01.skipped_not_active', True)
+            # nothing in this alphabet stops a watcher: only a rejecting hook or a failing process creation (scenarios that
+            # have them) may legitimately take it out of the active state
+            legit = bool(scn.p.get('reject') or scn.p.get('fault'))
+            res.check('C01.stays_active', legit or (w is not None and not w.respawn),
+                      lambda: 'watcher a is %s after %s although no request stopped it (numprocesses=%s)'
+                      % (w.status() if w is not None else 'gone', [e.label for _, e in win.applied],
+                         getattr(w, 'numprocesses', None)), where='watcher.manage_processes/unrequested-stop')
             return
         if scn.max_age:
             # with max_age on, expiry is a legitimate cause of spawns/signals: only the count is checked
